@@ -562,6 +562,13 @@ def check_cli(ctx, batch, case, samples, recs, inrecs, trace, rows=None):
         if len(fam) < 2:
             continue
         trios = t["trios"]
+        # the family structure the solver was given must be the PED's: every trio of the PED whose child is in this
+        # family (a dropped trio turns its child into an unrelated founder and nothing below would notice)
+        want = sorted(tuple(tr) for tr in data["trios"] if tr[2] in fam)
+        if sorted(tuple(tr) for tr in trios) != want:
+            ctx.fail(f"the trios handed to the solver for family {fam} are {trios}, the PED file says {want}", case,
+                     key="pedigree-structure-lost")
+            continue
         acc = t["accessible_positions"]
         col_of = {p: i for i, p in enumerate(acc)}
         tv = t["transmission_vector"]
